@@ -356,7 +356,7 @@ class ModelsWorld(World):
                 if rng.random() < (0.3 if nv > 1 else 0.12) and TEMPLATES[r.tname]["shocks"]:
                     # assigning a level to a shock is legal; the assignment rules reset it to zero in every variant
                     m["values"][rng.choice(TEMPLATES[r.tname]["shocks"])] = [1.0] * nv if nv > 1 and rng.random() < 0.5 else 1.0
-                if nv > 1 and TEMPLATES[r.tname].get("growth") and rng.random() < 0.5:
+                if nv > 1 and TEMPLATES[r.tname].get("growth") and TEMPLATES[r.tname].get("autovalues") and rng.random() < 0.5:
                     # growth scenarios: the variants share level and parameters and differ in the steady change only
                     tv = [q.human for q in r.real.quantities if "TRANSITION_VARIABLE" in str(q.kind)]
                     lvl = round(val.uniform(0.5, 2.0), 3)
@@ -1122,6 +1122,10 @@ class ModelsWorld(World):
                 raise Violation("split", opname, pred, "", f"variant {k} of {nv} differs from the single-variant model with its values in {key}{d}")
         sdeep, mdeep = self._deep(single), self._deep(r)
         for key in list(mdeep):
+            if isinstance(mdeep[key], str) and mdeep[key].startswith("EXC:") and isinstance(sdeep.get(key), str) and sdeep[key].startswith("EXC:"):
+                # the call fails on both: a multi-variant call may wrap the failure of one variant in another exception
+                # class than the single-variant call raises; the variant clause speaks about operations that completed
+                mdeep[key] = sdeep[key] = "EXC"
             if isinstance(mdeep[key], str) and mdeep[key].startswith("EXC:") and not isinstance(sdeep.get(key), str):
                 # the multi-variant call failed as a whole (one failing variant fails the call): the variant
                 # clause speaks about operations that completed
